@@ -350,6 +350,108 @@ def ended_thread_not_final(ctx: Ctx, kind: str) -> None:
                            {"kind": "ended-thread-not-final", "backend": kind, "how": how})
 
 
+def loop_iteration_corner_cases(ctx: Ctx, kind: str) -> None:
+    """what the loop iteration leaves in the runner's thread table decides what the stop can release:
+    (a) the operating system refuses to start a task thread (RuntimeError: can't start new thread) while other invocations of the same
+        iteration do start - every slot taken; then the stop request;
+    (b) the thread of a first attempt is still winding down (it has published RETRY and re-queued the invocation) when the loop claims
+        the invocation again; the old thread ends, the loop iterates, then the stop request.
+    Afterwards every claimed invocation is final or back in the queue, available and nobody's, and the stop did not raise."""
+    import importlib
+    import threading as real_threading
+
+    from pynenc.runner.thread_runner import ThreadInfo
+
+    trmod = importlib.import_module("pynenc.runner.thread_runner")
+
+    def judge(app, runner, invs, what: str, err) -> None:
+        flush(app)
+        q = queue_of(app)
+        o = app.orchestrator
+        for inv in invs:
+            r = o.get_invocation_status_record(inv.invocation_id)
+            st = r.status.value
+            ok = st in ("success", "failed", "concurrency_controlled_final") or (st in ("registered", "rerouted", "retry") and r.runner_id is None and inv.invocation_id in q)
+            if err is not None or not ok:
+                ctx.report(f"stop-leaves[{kind}]:{st}:{what}",
+                           f"[{kind}] {what}: the stop {'raised ' + err if err else 'returned'}; afterwards a claimed invocation is {st}, owner {r.runner_id}, queued {inv.invocation_id in q}",
+                           {"kind": "loop-corner-case", "backend": kind, "case": what})
+                return
+
+    # ---- (a)
+    app = make_app(kind, ctx.tmp, app_id=f"c11startfault{kind}", runner_cls="ThreadRunner", runner_loop_sleep_time_sec=0.0, min_parallel_slots=3, max_threads=3)
+    task = app.task(T.c11_slow)
+    runner = app.runner
+    runner._on_start()
+    invs = [task("ok", 0.4) for _ in range(3)]
+    state = {"n": 0}
+
+    class Flaky(real_threading.Thread):
+        def start(self) -> None:
+            state["n"] += 1
+            if state["n"] == 1:
+                raise RuntimeError("can't start new thread")
+            super().start()
+
+    class Shim:
+        Thread = Flaky
+
+        def __getattr__(self, name):  # type: ignore[no-untyped-def]
+            return getattr(real_threading, name)
+
+    saved = trmod.threading
+    trmod.threading = Shim()
+    err = None
+    try:
+        runner.runner_loop_iteration()
+        trmod.threading = saved
+        t0 = _time.time()
+        while _time.time() - t0 < 5 and sum(1 for i in invs if app.orchestrator.get_invocation_status(i.invocation_id).value == "running") < 2:
+            _time.sleep(0.002)
+        try:
+            runner._on_stop()
+        except BaseException as e:  # noqa: BLE001
+            err = f"{type(e).__name__}: {e}"
+    finally:
+        trmod.threading = saved
+    ctx.count()
+    ctx.distinct((kind, "thread-start-refused"))
+    judge(app, runner, invs, "a task thread could not be started (every slot taken) and the stop request follows", err)
+
+    # ---- (b)
+    app = make_app(kind, ctx.tmp, app_id=f"c11winding{kind}", runner_cls="ThreadRunner", runner_loop_sleep_time_sec=0.0, min_parallel_slots=2, max_threads=2)
+    task = app.task(T.c11_slow, max_retries=2)
+    runner = app.runner
+    runner._on_start()
+    inv = task("ok", 0.0)
+    ctxR = runner.runner_context
+    got = list(app.orchestrator.get_invocations_to_run(1, ctxR))
+    app.orchestrator.set_invocation_status(inv.invocation_id, trs_status("running"), ctxR)
+    app.orchestrator.set_invocation_retry(inv.invocation_id, RuntimeError("first attempt failed"), ctxR) if hasattr(app.orchestrator, "set_invocation_retry") else None
+    winding = real_threading.Event()
+    old = real_threading.Thread(target=winding.wait, args=[10], daemon=True)      # the first attempt's thread: RETRY published, not yet out of run()
+    old.start()
+    runner.threads = {inv.invocation_id: ThreadInfo(old, got[0])}
+    err = None
+    try:
+        runner.runner_loop_iteration()          # the loop claims the retried invocation again
+        winding.set()
+        old.join(5)
+        t0 = _time.time()
+        while _time.time() - t0 < 3 and not app.orchestrator.get_invocation_status(inv.invocation_id).is_final():
+            runner.runner_loop_iteration()
+            _time.sleep(0.005)
+        try:
+            runner._on_stop()
+        except BaseException as e:  # noqa: BLE001
+            err = f"{type(e).__name__}: {e}"
+    finally:
+        winding.set()
+    ctx.count()
+    ctx.distinct((kind, "first-attempt-still-winding-down"))
+    judge(app, runner, [inv], "the loop claims a retried invocation while the thread of its first attempt is still winding down", err)
+
+
 def trs_status(name: str):  # type: ignore[no-untyped-def]
     from pynenc.invocation.status import InvocationStatus
 
@@ -508,6 +610,7 @@ def run(ctx: Ctx) -> None:
             poller_during_stop(ctx, kind)
             stale_entry_then_live(ctx, kind)
             ended_thread_not_final(ctx, kind)
+            loop_iteration_corner_cases(ctx, kind)
             running_child_on_same_runner(ctx, kind)
             realtime(ctx, kind)
         waiting_parent(ctx, "mem")
